@@ -216,13 +216,13 @@ func (s *mq) Build(w *World) {
 		case "block":
 			c.size = unit * uint64([]int{1, 1, 2, 3}[t.Draw(4)])
 			if bigBlocks && t.Chance(500) {
-				c.size = 300 * 1024 // two of these do not fit one message
+				c.size = 300*1024 + uint64(i) // two of these do not fit one message
 			}
 			if !bigBlocks {
 				c.size += uint64(i) // sizes are unique per call, so a reservation can be attributed
 			}
 			if c.size > perPeer {
-				c.size = perPeer
+				c.size = perPeer - uint64(i) // (sizes stay unique per call: a reservation is attributed by its size)
 			}
 		case "ext":
 			c.size = 0
